@@ -76,6 +76,11 @@ class Stub:
         def call(a, k, n, attr=attr):
             r = Rec(f"{self.name}.{attr}", a, k)
             self.log.append(r)
+            if attr == "_mapping":
+                # the mesh's own mapping: an object with methods again
+                m = Stub("mapping", self.log)
+                m.origin = r
+                return m
             return r
         return PyFunc(call)
 
@@ -117,6 +122,7 @@ class F2T:
 
 
 def _run_basis(model: Model, clsname: str, modname: str, kwargs: Dict):
+    kwargs = dict(kwargs)
     cls = model.cls(f"{AB}.{modname}", clsname)
     log: List[Rec] = []
     quad_calls = []
@@ -124,7 +130,8 @@ def _run_basis(model: Model, clsname: str, modname: str, kwargs: Dict):
     W = Poly.sym("W")
     mesh = Stub("mesh", log, {"refdom": refdom, "brefdom": brefdom,
                               "nelements": Poly.sym("nelements"),
-                              "f2t": F2T(), "t2f": "T2F"})
+                              "f2t": F2T(), "t2f": "T2F",
+                              "affine": kwargs.pop("#affine", False)})
     elem = Stub("elem", log, {"refdom": refdom, "maxdeg": Poly.sym("m"),
                               "dim": 2})
     mapping = Stub("mapping", log)
@@ -140,6 +147,11 @@ def _run_basis(model: Model, clsname: str, modname: str, kwargs: Dict):
             return [T(("nonzero", args[0]))]
         if name.endswith("DiscreteField"):
             return ("field", kwargs_ or args)
+        if name.startswith("skfem.mapping.") and name.rsplit(".", 1)[-1][
+                :7] == "Mapping":
+            r = Rec("new " + name.rsplit(".", 1)[-1], args, kwargs_)
+            log.append(r)
+            return Stub("constructed-mapping", log)
         return NotImplemented
 
     def attr_hook(interp, o, name, node):
@@ -156,7 +168,11 @@ def _run_basis(model: Model, clsname: str, modname: str, kwargs: Dict):
     it.overrides["skfem.quadrature.get_quadrature"] = PyFunc(gq)
     obj = Obj(cls)
     kw = {"disable_doflocs": True, "mapping": mapping}
+    kwargs = dict(kwargs)
     kw.update(kwargs)
+    kw.pop("#affine", None)
+    if kw.get("mapping", 0) is None:
+        kw.pop("mapping")
     try:
         it.call(cls.methods["__init__"], [mesh, elem], kw, self_obj=obj)
     except Raised as e:
@@ -236,6 +252,42 @@ def _r12(model, rep):
                          "the quadrature rule is not requested on the "
                          "mesh's cell reference domain", line)
             _order_rule(rep, R2, "CellBasis", path, line, qc)
+    # which mapping the basis keeps: it is handed on to derived bases
+    for given in (True, False):
+        for sub in (None, "ELEMS"):
+            for affine in (True, False):
+                kw = {"#affine": affine}
+                if sub:
+                    kw["elements"] = "ELEMS"
+                if not given:
+                    kw["mapping"] = None
+                obj, log, qc, _, mesh, mp = _run_basis(
+                    model, "CellBasis", "cell_basis", kw)
+                got = obj.attrs.get("mapping")
+                own = [r for r in log if r.what == "mesh._mapping"]
+                built = [r for r in log if r.what.startswith("new ")]
+                if given:
+                    ok = got is mp and not built
+                else:
+                    ok = len(own) == 1 and getattr(got, "origin", None) \
+                        is own[0] and not built
+                cons = (f"CellBasis.mapping[{'given' if given else 'default'}"
+                        f",{'subset' if sub else 'all'},"
+                        f"{'affine' if affine else 'non-affine'} mesh]")
+                if ok:
+                    rep.ok(R1, cons, "the basis keeps the mapping it was "
+                           "given" if given else "the basis keeps the "
+                           "mesh's own whole-mesh mapping")
+                else:
+                    rep.fail(R1, path, "CellBasis.__init__", cons,
+                             f"the basis keeps "
+                             f"{built[0].what[4:] + '(' + ', '.join(k for k in built[0].kwargs) + '=...)' if built else repr(got)}"
+                             f" instead of "
+                             f"{'the mapping it was given' if given else 'mesh._mapping()'}"
+                             f": the stored mapping is handed on to derived "
+                             f"bases (with_elements, facet bases built from "
+                             f"it), which then evaluate the geometry of "
+                             f"other cells", line)
     # explicit overrides
     for kw, nm in (({"intorder": Poly.sym("k")}, "intorder"),
                    ({"quadrature": (Poly.sym("Xq"), Poly.sym("Wq"))},
@@ -464,6 +516,14 @@ _CB = "skfem/assembly/basis/cell_basis.py"
 _FB = "skfem/assembly/basis/facet_basis.py"
 _ABF = "skfem/assembly/basis/abstract_basis.py"
 MUTANTS = [
+    ("subset basis stores a mapping restricted to its own cells",
+     ("skfem/assembly/basis/cell_basis.py",
+      "            self.nelems = len(self.tind)\n",
+      "            self.nelems = len(self.tind)\n"
+      "            if mapping is None and mesh.affine:\n"
+      "                from skfem.mapping import MappingAffine\n"
+      "                self.mapping = MappingAffine(mesh, tind=self.tind)\n"),
+     "C02-R1"),
     ("cell dx without the absolute value",
      (_CB, "        self.dx = (np.abs(self.mapping.detDF(self.X, "
       "tind=self.tind))\n", "        self.dx = (self.mapping.detDF(self.X, "
